@@ -56,6 +56,17 @@ pub enum Op {
     SwapOwn(i64, i64),
     /// `own = [a]; own.extend shared; own.to_tuple()`: a snapshot read into a private list
     ExtendOwnFromShared(i64),
+    /// `match shared` / `(first, rest...) then (size rest) + 1` / `() then 0`: the size, through
+    /// a slice of the list (match patterns with `...`)
+    MatchRest,
+    /// `match shared` / `(others..., last) then last` / `else -1`
+    MatchLast,
+    /// `shared.extend shared`: the list doubled (one container on both sides)
+    ExtendSelf,
+    /// `shared.swap shared`: nothing changes
+    SwapSelf,
+    /// `smap.extend smap`: nothing changes
+    MExtendSelf,
     /// `shared.extend a..a+3` (the generic-iterable arm of list.extend)
     ExtendRange(i64),
     /// `shared.extend (a..a+3).each |v| v` (an adaptor chain as the iterable)
@@ -140,6 +151,10 @@ impl Op {
                 | Op::NMapUpdate(_)
                 | Op::NMapForCount
                 | Op::NReentrant(_)
+                // a match is several instructions (size check, then element / slice reads):
+                // not one container operation, checked for panic / deadlock only
+                | Op::MatchRest
+                | Op::MatchLast
         )
     }
 
@@ -178,6 +193,11 @@ impl Op {
             RetainValue(v) => format!("shared.retain {v}\nnull"),
             SwapOwn(a, b) => format!("own = [{a}, {b}]\nshared.swap own\nown.to_tuple()"),
             ExtendOwnFromShared(a) => format!("own = [{a}]\nown.extend shared\nown.to_tuple()"),
+            MatchRest => "match shared\n  (first, rest...) then (size rest) + 1\n  () then 0\n  else -1".into(),
+            MatchLast => "match shared\n  (others..., last) then last\n  else -1".into(),
+            ExtendSelf => "shared.extend shared\nnull".into(),
+            SwapSelf => "shared.swap shared\nnull".into(),
+            MExtendSelf => "smap.extend smap\nnull".into(),
             MExtendOwnFromShared => "own = {}\nown.extend smap\nown".into(),
             MAddOwn => "own = {}\nown + smap".into(),
             ExtendRange(a) => format!("shared.extend {a}..{}\nnull", a + 3),
@@ -359,6 +379,12 @@ pub fn apply(m: &mut Model, op: &Op) -> String {
             let old = std::mem::replace(&mut m.list, vec![*a, *b]);
             fmt_tuple(&old)
         }
+        ExtendSelf => {
+            let copy = m.list.clone();
+            m.list.extend(copy);
+            null()
+        }
+        SwapSelf | MExtendSelf => null(),
         ExtendOwnFromShared(a) => {
             let mut own = vec![*a];
             own.extend(m.list.iter().copied());
@@ -500,8 +526,16 @@ fn gen_op(r: &mut Rng, thread: usize, n: &mut i64, target_list: bool, allow_n: b
     }
     if allow_n && r.chance(1, 4) {
         return if target_list {
-            r.pick(&[Op::NForCount, Op::NToList, Op::NRetainPred, Op::NSortKey, Op::NTransform])
-                .clone()
+            r.pick(&[
+                Op::NForCount,
+                Op::NToList,
+                Op::NRetainPred,
+                Op::NSortKey,
+                Op::NTransform,
+                Op::MatchRest,
+                Op::MatchLast,
+            ])
+            .clone()
         } else {
             match r.below(3) {
                 0 => Op::NMapKeys,
@@ -559,6 +593,10 @@ fn gen_op(r: &mut Rng, thread: usize, n: &mut i64, target_list: bool, allow_n: b
             33 => Op::RetainValue(1),
             34..=35 => Op::SwapOwn(fresh(), fresh()),
             36 => Op::ExtendOwnFromShared(fresh()),
+            37 if r.chance(1, 2) => {
+                if r.chance(1, 2) { Op::ExtendSelf } else { Op::SwapSelf }
+            }
+
             37..=38 => Op::ExtendRange(fresh() * 10),
             _ => Op::ExtendIter(fresh() * 10),
         }
@@ -589,9 +627,11 @@ fn gen_op(r: &mut Rng, thread: usize, n: &mut i64, target_list: bool, allow_n: b
             20 => Op::MEqSelf,
             21 => Op::MEqMetaView,
             22 => Op::MExtendIter(key(r), fresh()),
-            23 if r.chance(1, 2) => {
-                if r.chance(1, 2) { Op::MExtendOwnFromShared } else { Op::MAddOwn }
-            }
+            23 if r.chance(1, 2) => match r.below(3) {
+                0 => Op::MExtendOwnFromShared,
+                1 => Op::MAddOwn,
+                _ => Op::MExtendSelf,
+            },
             _ => Op::MInsert(key(r), fresh()),
         }
     }
@@ -1188,6 +1228,11 @@ fn parse_op(s: &str) -> Option<Op> {
         "SwapOwn" => SwapOwn(int(0)?, int(1)?),
         "ExtendOwnFromShared" => ExtendOwnFromShared(int(0)?),
         "MExtendOwnFromShared" => MExtendOwnFromShared,
+        "ExtendSelf" => ExtendSelf,
+        "MatchRest" => MatchRest,
+        "MatchLast" => MatchLast,
+        "SwapSelf" => SwapSelf,
+        "MExtendSelf" => MExtendSelf,
         "MAddOwn" => MAddOwn,
         "ExtendRange" => ExtendRange(int(0)?),
         "ExtendIter" => ExtendIter(int(0)?),
